@@ -225,6 +225,9 @@ def run(ctx):
     # the fuzzy-tuned controller (third controller of the property): model and harness live with C13
     import importlib
     importlib.import_module("checks.C13").controller_part(ctx)
+    # ... and so does the translator tie of src/pid_fuzzy.c (walker, joint membership, weighted means: harness/C13/TieLoop*.v)
+    import varr
+    varr.arr_translate_and_tie(ctx, "C13")
     ctx.cov["rule"] = ("histories of 1..40 steps: mixed modes, pos only, inc only, saturating sign-flipping inputs, a_pid_zero "
                        "in the middle; integer-valued (exact rational reference) and real-valued data; pos/inc pairs on the same "
                        "history with inactive limits; neuron with random and all-zero weights; distinct = distinct case lines "
